@@ -324,6 +324,20 @@ func (s *Sched) threadMain(t *Thread, f func()) {
 			s.res.PanicValue = fmt.Sprint(r)
 			s.res.PanicStack = trimStack(string(debug.Stack()))
 			s.res.PanicTID = t.ID
+			// what the other threads were waiting for when the panic happened (a panic that reports "I waited in vain"
+			// is identified by who had not finished)
+			for _, o := range s.threads {
+				if o == t || o.done {
+					continue
+				}
+				b := BlockedThread{ID: o.ID, Name: o.Name}
+				if o.pending != nil {
+					b.Op = o.pending.kind.String()
+					b.Obj = fmt.Sprintf("#%d", s.objID(o.pending.obj))
+					b.Where = o.pending.where.String()
+				}
+				s.res.Blocked = append(s.res.Blocked, b)
+			}
 			s.abort()
 			return
 		}
